@@ -61,6 +61,8 @@ def analyse(prop: str, root: str, thorough: bool, overrides=None) -> RuleContext
     ctx = RuleContext(prop, model, thorough=thorough)
     mod = importlib.import_module(f"jtsa.rules.{prop.lower()}")
     mod.run(ctx)
+    if ctx.errors and not ctx.findings:
+        raise AnalysisError("; ".join(ctx.errors[:4]))
     return ctx
 
 
@@ -166,6 +168,13 @@ def run_property(prop: str, root: str = "/repo", thorough: bool = False) -> int:
             listed.append((f, k))
         else:
             new.append(f)
+    if ctx.errors and not new:
+        msg = "; ".join(ctx.errors[:4])
+        print(f"ANALYSIS-ERROR property={prop}: {msg}")
+        write_evidence(prop, tier, ctx, time.time() - t0, 0, f"ANALYSIS-ERROR: {msg}", mod)
+        return 2
+    for e in ctx.errors:
+        print(f"ANALYSIS-NOTE property={prop}: a sub-rule could not decide ({e}); other sub-rules report below")
     for f, k in listed:
         print(f"KNOWN-FINDING: property={prop} {k.get('id', '')} [{f.rule}] {f.function}: {k.get('what', f.message)}")
     vdir = os.path.join(EVIDENCE_DIR, "violations")
